@@ -296,9 +296,10 @@ RemoveObs(fs, todo) ==
        IN IF Stat(fs, t).st = "ok" THEN RemoveObs(fs, todo \ {p})
           ELSE RemoveObs(Without(fs, {p}), todo \ {p})
 RemoveObsoleteSymlinks(fs) == RemoveObs(fs, SymsInTarget(fs))
-\* the repair for Dev_LexicalLinkTarget: drop every link that leads outside, until none is left
+\* the repair for Dev_LexicalLinkTarget: drop every link that does not resolve (all links followed) to an
+\* existing location inside the target, until none is left - also when unpacking stops with an error
 RECURSIVE SweepEscaping(_)
-SweepEscaping(fs) == LET bad == {p \in SymsInTarget(fs) : Escapes(fs, p)} IN
+SweepEscaping(fs) == LET bad == {p \in SymsInTarget(fs) : LET w == Stat(fs, p) IN w.st # "ok" \/ ~Inside(w.p)} IN
                      IF bad = {} THEN fs ELSE SweepEscaping(Without(fs, bad))
 Finish(fl, run) ==
   LET fs1 == IF run.st = "abort" THEN run.fs ELSE RemoveObsoleteSymlinks(run.fs)
